@@ -473,7 +473,7 @@ func hFrames(dir string) {
 			if _, err := (snapshot.Reader{Stream: st}).WriteTo(&buf); err != nil {
 				return "err recv"
 			}
-			return "ok " + hx(buf.Bytes())
+			return "ok " + hxn(buf.Bytes()) // an empty buffer has a nil slice: nothing was written either way
 		})
 		out.Line("ship "+strings.Join(pieces, " "), ans)
 		out.Count("ship")
